@@ -801,9 +801,9 @@ func resolveDisableMap(r Exp, v map[string]Exp, disable []Exp) ([]Exp, error) {
 		return disable, nil
 	}
 	if allTrue {
-		for _, e := range v {
-			return []Exp{e}, nil
-		}
+		// All of the entries are true: the one with the smallest key stands
+		// for them, so that the result is repeatable.
+		return []Exp{v[keys[0]]}, nil
 	}
 	result := make([]Exp, len(disable), len(disable)+1)
 	copy(result, disable)
